@@ -372,7 +372,7 @@ class TlRegistrator:
         return False
 
     def register(self, schema: str) -> TlSchema:
-        schema = schema.split('//')[0]
+        schema = ' '.join(schema.split('//')[0].split())  # the id is the CRC32 of the declaration with single spaces
         name = schema.split(' ')[0]
         if '#' in name:
             split_name = name.split('#')
